@@ -1760,6 +1760,62 @@ func (s *bucketSubject) queries(r *rand.Rand, probes [][]byte) {
 		}
 		return showPairs(ps)
 	})
+	// CollectKVs with SUBSETS of the values (round 12): the early return once the wanted set is empty, wanted
+	// values spread over several tries, wanted values nobody has, the empty set
+	if len(all) > 0 {
+		maxv := uint32(0)
+		for _, p := range all {
+			if p.v > maxv {
+				maxv = p.v
+			}
+		}
+		pick := func(n int) []uint32 {
+			var out []uint32
+			for _, i := range r.Perm(len(all)) {
+				if len(out) >= n {
+					break
+				}
+				out = append(out, all[i].v)
+			}
+			return out
+		}
+		wanted := [][]uint32{
+			{all[0].v}, {all[len(all)-1].v}, pick(1), pick(2 + r.Intn(5)), pick(1 + min(len(all)/2, 300)),
+			append(pick(2), maxv+1, maxv+77), {maxv + 5}, {},
+		}
+		for _, w := range wanted {
+			ws := make([]string, len(w))
+			in := map[uint32]bool{}
+			for i, x := range w {
+				ws[i] = strconv.Itoa(int(x))
+				in[x] = true
+			}
+			var want []pair
+			for _, p := range all {
+				if in[p.v] {
+					want = append(want, p)
+				}
+			}
+			c.Guard(strings.TrimSpace("bcollect "+strings.Join(ws, " ")), func() string {
+				bm := roaring.New()
+				for _, x := range w {
+					bm.Add(x)
+				}
+				res := map[uint32]string{}
+				s.b.CollectKVs(bm, res)
+				var ps []pair
+				for v, k := range res {
+					ps = append(ps, pair{[]byte(k), v})
+				}
+				sort.Slice(ps, func(i, j int) bool { return bytes.Compare(ps[i].k, ps[j].k) < 0 })
+				if !samePairs(ps, want) {
+					c.Fail("bucket-collect-mismatch", fmt.Sprintf("[%s] CollectKVs(%d wanted values) returned %d pairs, the union has %d pairs with these values (or they differ)", s.tag, len(w), len(ps), len(want)))
+				}
+				return showPairs(ps)
+			})
+		}
+		c.Branch("bucket-collect-subsets")
+	}
 	for i, p := range probes {
 		if i >= 8 {
 			break
@@ -1881,6 +1937,259 @@ func bucketCase(c *core.Ctx, r *rand.Rand, tier string, viaV1 bool) {
 	runBucket(c, r, blockSize, keys, vals, groups, viaV1, 14)
 }
 
+// blockSplitSizes / blockSplitCase (round 12): the block splitting of TrieBucketBuilder.Write at every
+// key count RELATIVE TO THE BLOCK SIZE. Block size and number of full blocks are fixed by case index
+// (k%len(sizes), 1 + k/len(sizes)%3), and EVERY remainder of the directed list (0, 1, 2, and the
+// fractions blockSize/16, /8, /4, /3, /2 each -1 / exact / +1, blockSize-2, blockSize-1; for block sizes
+// <= 9 that is every remainder) is run in that case: n = q*blockSize + rem keys either as ONE flush (the
+// builder cuts it) or as q+1.. small flushes that TrieBucket.Write (the merge) rebuilds through the
+// builder, directly or through index/v1's flusher; half of the remainders each way, the other half in the
+// case with the same block size and the next q. Also n <= blockSize (q = 0) for rem = 1, blockSize-1.
+var blockSplitSizes = []int{2, 3, 4, 5, 7, 8, 9, 16, 17, 24, 32, 40, 64, 100}
+
+func blockSplitRems(bs int) []int {
+	cand := []int{0, 1, 2, bs / 16, bs/8 - 1, bs / 8, bs/8 + 1, bs/4 - 1, bs / 4, bs/4 + 1, bs / 3, bs/2 - 1, bs / 2, bs/2 + 1, bs - 2, bs - 1}
+	seen := map[int]bool{}
+	var out []int
+	for _, x := range cand {
+		if x >= 0 && x < bs && !seen[x] {
+			seen[x] = true
+			out = append(out, x)
+		}
+	}
+	sort.Ints(out)
+	return out
+}
+
+func blockSizesInOrder(block []byte) (sizes []int) {
+	b := block
+	for len(b) >= 8 {
+		sz := binary.LittleEndian.Uint32(b[:4])
+		sizes = append(sizes, int(binary.LittleEndian.Uint32(b[4:8])))
+		if int(4+sz) > len(b) {
+			break
+		}
+		b = b[4+sz:]
+	}
+	return
+}
+
+func blockSplitCase(c *core.Ctx, r *rand.Rand, k int) {
+	bs := blockSplitSizes[k%len(blockSplitSizes)]
+	round := k / len(blockSplitSizes)
+	q := 1 + round%3
+	c.Branch(fmt.Sprintf("block-split-bs-%d", bs))
+	pool, _ := genKeys(r, "quick", false)
+	if len(pool) > 0 && len(pool[0]) == 0 {
+		pool = pool[1:]
+	}
+	type job struct{ n, mode int }
+	var jobs []job
+	for j, rem := range blockSplitRems(bs) {
+		jobs = append(jobs, job{q*bs + rem, (j + round) % 2})
+	}
+	jobs = append(jobs, job{1, round % 2}, job{bs - 1, (round + 1) % 2}, job{bs, round % 2})
+	for _, jb := range jobs {
+		n := jb.n
+		if n <= 0 {
+			continue
+		}
+		keys := append([][]byte{}, pool...)
+		for len(keys) < n {
+			keys = append(keys, []byte(fmt.Sprintf("zz-extra-%04d", len(keys))))
+		}
+		r.Shuffle(len(keys), func(a, b int) { keys[a], keys[b] = keys[b], keys[a] })
+		keys = keys[:n]
+		sort.Slice(keys, func(a, b int) bool { return bytes.Compare(keys[a], keys[b]) < 0 })
+		vals := genVals(r, n)
+		// (1) the split itself: sizes of the tries in WRITTEN order
+		func() {
+			ks := make([][]byte, n)
+			ids := make([]uint32, n)
+			for j, i := range r.Perm(n) {
+				ks[j], ids[j] = clone(keys[i]), vals[i]
+			}
+			var buf bytes.Buffer
+			var sizes []int
+			c.Guard(fmt.Sprintf("bsplit %d %d", bs, n), func() string {
+				if err := model.NewTrieBucketBuilder(bs, &buf).Write(ks, ids); err != nil {
+					return "write-error"
+				}
+				sizes = blockSizesInOrder(buf.Bytes())
+				return showInts(sizes)
+			})
+			sum := 0
+			bad := false
+			for j, x := range sizes {
+				sum += x
+				if x < 1 || x > bs || (j < len(sizes)-1 && x != bs) {
+					bad = true
+				}
+			}
+			if sum != n || bad {
+				c.Fail("bucket-blocks-not-a-partition", fmt.Sprintf("TrieBucketBuilder(blockSize=%d).Write(%d keys) wrote tries of %s keys (sum %d): not %d keys in full blocks + one remainder", bs, n, showInts(sizes), sum, n))
+			}
+		}()
+		// (2) the dictionary behind it: one flush, or small flushes rebuilt by the merge
+		perm := r.Perm(n)
+		var groups [][]int
+		if jb.mode == 0 || bs < 2 || n < 2 {
+			groups = [][]int{perm}
+			c.Branch("block-split-one-flush")
+		} else {
+			// every flush below the block size => all of them pending => the merge rebuilds n keys
+			for len(perm) > 0 {
+				m := 1 + r.Intn(bs-1)
+				if m > len(perm) {
+					m = len(perm)
+				}
+				groups = append(groups, perm[:m])
+				perm = perm[m:]
+			}
+			c.Branch("block-split-merge-rebuild")
+		}
+		rem := n % bs
+		switch {
+		case n <= bs:
+			c.Branch("block-split-n-le-blocksize")
+		case rem == 0:
+			c.Branch("block-split-rem-0")
+		case rem == bs/8:
+			c.Branch("block-split-rem-eq-eighth")
+		case rem < bs/8:
+			c.Branch("block-split-rem-below-eighth")
+		case rem*2 < bs:
+			c.Branch("block-split-rem-below-half")
+		default:
+			c.Branch("block-split-rem-upper-half")
+		}
+		runBucket(c, r, bs, keys, vals, groups, jb.mode == 0 && n%3 == 0, 6)
+	}
+}
+
+// bucket framing (round 12): the stored values of a bucket are frames `[u32 size][trie image]` one after the
+// other. frameDigests cuts the values the way TrieBucket.Unmarshal does and digests every frame.
+func byteDigest(bs []byte) uint64 {
+	h := uint64(7)
+	for _, b := range bs {
+		h = (h*31 + uint64(b) + 1) % 1000000007
+	}
+	return h
+}
+
+func frameDigests(values [][]byte) (ds []int, ok bool) {
+	for _, v := range values {
+		for len(v) > 0 {
+			if len(v) < 4 {
+				return ds, false
+			}
+			end := 4 + int(binary.LittleEndian.Uint32(v[:4]))
+			if end > len(v) {
+				return ds, false
+			}
+			ds = append(ds, int(byteDigest(v[:end])))
+			v = v[end:]
+		}
+	}
+	return ds, true
+}
+
+// bucketUnmarshalOutcome runs TrieBucket.Unmarshal on a fresh object over bytes with cap = len.
+func bucketUnmarshalOutcome(value []byte) (line string) {
+	defer func() {
+		if p := recover(); p != nil {
+			line = "rejected"
+		}
+	}()
+	buf := make([]byte, len(value))
+	copy(buf, value)
+	b := model.NewTrieBucket()
+	if err := b.Unmarshal(buf[:len(buf):len(buf)]); err != nil {
+		return "rejected"
+	}
+	ds, ok := frameDigests([][]byte{buf})
+	if !ok {
+		return "accepted-unframed"
+	}
+	return fmt.Sprintf("ok n=%d d=%s", len(ds), showInts(ds))
+}
+
+// bucketFraming: `bframes` (count + digests of the frames, model-diffed; oracle: frames == tries loaded,
+// keys in the frames == keys of the union) and, on small buckets, damaged framings through `bumal`.
+func bucketFraming(c *core.Ctx, r *rand.Rand, tag string, values [][]byte, want int) {
+	ds, ok := frameDigests(values)
+	if !ok {
+		c.Fail("bucket-framing-broken", fmt.Sprintf("[%s] the written value is not a sequence of [u32 size][image] frames", tag))
+		return
+	}
+	sorted := append([]int{}, ds...)
+	sort.Ints(sorted)
+	vsize := 0
+	for _, v := range values {
+		vsize += len(v)
+	}
+	if vsize <= 200000 {
+		// (the model frames and re-reads its own tries over byte LISTS: kept to values of <= 200 KB; above that
+		// only the impl-side checks below)
+		c.Op("bframes", fmt.Sprintf("ok n=%d d=%s", len(ds), showInts(sorted)))
+	}
+	total := 0
+	for _, x := range blockSizes(values) {
+		total += x
+	}
+	if total != want {
+		c.Fail("bucket-framing-key-count", fmt.Sprintf("[%s] the frames hold %d keys, the union has %d", tag, total, want))
+	}
+	c.Branch("bucket-framing-checked")
+	size := 0
+	for _, v := range values {
+		size += len(v)
+	}
+	if size == 0 || size > 1500 || r.Intn(3) != 0 {
+		return
+	}
+	// damaged framings of the concatenated value
+	var value []byte
+	for _, v := range values {
+		value = append(value, v...)
+	}
+	first := 4 + int(binary.LittleEndian.Uint32(value[:4]))
+	variants := [][]byte{
+		value[:first],           // cut at a frame boundary: a shorter bucket
+		value[:first-1],         // inside the first image
+		value[:len(value)-1],    // last byte missing
+		value[:2],               // inside a size word
+		append(clone(value), 9), // one stray byte after the last frame
+	}
+	if first+2 <= len(value) {
+		variants = append(variants, value[:first+2]) // inside the second size word
+	}
+	for _, d := range []int{1, -1, 7, 1 << 20} {
+		v := clone(value)
+		binary.LittleEndian.PutUint32(v[:4], uint32(int(binary.LittleEndian.Uint32(v[:4]))+d))
+		variants = append(variants, v)
+	}
+	for _, x := range []uint32{0, 3, 0xfffffffc, 0xfffffffe, 0xffffffff} {
+		v := clone(value)
+		binary.LittleEndian.PutUint32(v[:4], x)
+		variants = append(variants, v)
+	}
+	for i := 0; i < 3; i++ {
+		v := clone(value)
+		v[r.Intn(len(v))] = byte(r.Intn(256))
+		variants = append(variants, v)
+	}
+	for _, v := range variants {
+		line := bucketUnmarshalOutcome(v)
+		c.Op("bumal "+hx(v), line)
+		if strings.HasPrefix(line, "ok") {
+			c.Branch("bucket-framing-damaged-accepted")
+		} else {
+			c.Branch("bucket-framing-damaged-rejected")
+		}
+	}
+}
+
 // fullTrieMergeCase (thorough tier): the block size the index merger really works with
 // (math.MaxUint16): one flush of more than 65535 keys (=> one full trie + a remainder) and two or
 // three small flushes, merged through index/v1's merger.
@@ -1995,6 +2304,7 @@ func runBucket(c *core.Ctx, r *rand.Rand, blockSize int, keys [][]byte, vals []u
 		c.Branch("bucket-via-index-model")
 	}
 	c.Op("bsizes", showInts(blockSizes(store[bucketID])))
+	bucketFraming(c, r, "flushed", store[bucketID], len(all))
 	probes := genProbes(r, keys, nprobes)
 	s := newBucketSubject(c, bucket, all, "flushed", store[bucketID])
 	s.queries(r, probes)
@@ -2047,6 +2357,7 @@ func runBucket(c *core.Ctx, r *rand.Rand, blockSize int, keys [][]byte, vals []u
 		return
 	}
 	c.Op("bsizes", showInts(blockSizes(out)))
+	bucketFraming(c, r, "merged", out, len(all))
 	s2 := newBucketSubject(c, merged, all, "merged", out)
 	s2.queries(r, probes)
 	c.Branch("bucket-merged")
@@ -2600,6 +2911,8 @@ func (area) Run(c *core.Ctx) error {
 			trieCase(c, r, keys, vals, genProbes(r, keys, 16), true)
 		case i%40 == 34:
 			wideLastNodeCase(c, r, i/40)
+		case i%40 == 24:
+			blockSplitCase(c, r, i/40)
 		case i%10 == 6 && i%20 == 6:
 			kvstoreCase(c, r)
 		case c.Tier == "thorough" && i%1000 == 501:
